@@ -54,6 +54,16 @@ class Zygote:
             self.dir = None
 
     def run(self, plan, keep_fs_events=True):
+        if plan.get("knobs", {}).get("tokendir") == "@scratch":
+            # a real scratch directory behind the pass-through path of the file layer (SQLite object store): created for this run, removed after it
+            import copy as _copy
+            real = tempfile.mkdtemp(prefix="tok-", dir=self.dir)
+            p2 = _copy.deepcopy(plan); p2["knobs"]["tokendir"] = real
+            try:
+                r = self.run(p2, keep_fs_events); r.plan = plan
+                return r
+            finally:
+                shutil.rmtree(real, ignore_errors=True)
         self.n += 1
         pin = os.path.join(self.dir, "plan.json")
         pout = os.path.join(self.dir, "out.jsonl")
